@@ -1,1 +1,6 @@
 import TypelibModel.Model.Basic
+import TypelibModel.Model.Serdes
+import TypelibModel.Model.Denote
+import TypelibModel.Model.Text
+import TypelibModel.Model.Temporal
+import TypelibModel.Model.Leaf
